@@ -6,8 +6,9 @@
    walker [walk]), ARBITRARY name check and file lookup [find] (every file map, every load path) and
    arbitrary constants - hence also for the concrete instance of Model/ReqEmbedInst.v, for which the
    second group gives the fuel bound. *)
-From PV Require Import Base.Prelude Generated.T_files_build Model.ReqEmbed Model.ReqEmbedInst
-  Proofs.ReqEmbedProofs Proofs.ReqEmbedInstProofs.
+From PV Require Import Base.Prelude Spec.LuaLex Instances.HoldsC01 Generated.T_files_build Model.ReqEmbed
+  Model.ReqEmbedInst Proofs.ReqEmbedProofs Proofs.ReqEmbedInstProofs Proofs.SpecLexChunk Proofs.ReqEmbedSpecTokens
+  Instances.HoldsC06.
 
 Section Abstract.
 Variable P : Type.
@@ -48,9 +49,11 @@ Theorem C14_structure : forall fuel main_path main_content r pk,
 Proof. exact (build_structure P parse_lines echo strip walk file_lines check_name find
                                preamble_package preamble_require header_line end_line nl_line). Qed.
 
-(* the same on the bytes of the __lua__ section, for any lexer whose token echo is faithful (this
-   hypothesis is property C06's statement): the main program's bytes are unchanged at the end, and a
-   package required with {use_game_loop=true} is embedded byte for byte *)
+(* the same on the bytes of the __lua__ section, for any lexer whose token echo is byte-faithful: the
+   main program's bytes are unchanged at the end, and a package required with {use_game_loop=true} is
+   embedded byte for byte.  (picotool's echo is byte-faithful except that a quoted string with a
+   non-canonical spelling is re-spelled - C06; the token-level theorems below need only the
+   token-faithful echo.) *)
 Theorem C14_structure_bytes :
   (forall ls q, parse_lines ls = Ok q -> concat (echo q) = concat ls) ->
   (forall c, concat (file_lines c) = c) ->
@@ -139,7 +142,8 @@ Proof. exact (build_fuel P parse_lines echo strip walk file_lines check_name fin
 
 (* tokens (partial): relative to a reference tokenizer [sigt] (significant tokens of a text, None if it
    does not lex) that has the CHUNKING property - the three hypotheses on sigt below, which are the
-   lexer stack's C07 chunking lemma - and to C06's echo statement, the significant tokens of the
+   lexer stack's C07 chunking lemma - and to the TOKEN-faithful echo of the lexer (C06: the echoed text
+   has the source's tokens; quoted strings may be re-spelled with the same denotation), the significant tokens of the
    cart's code are: the tokens of the package preamble, then for each table entry the tokens of its
    header line, of the package's echoed code and of `end`, then the tokens of the require()
    preamble, then the main program's tokens, unchanged.  Not discharged for the concrete stack
@@ -151,7 +155,7 @@ Theorem C14_tokens_partial : forall (T : Type) (sigt : bytes -> option (list T))
                      sigt (a ++ b) = Some (ta ++ tb)) ->
   (forall a ta, sigt a = Some ta -> sigt (a ++ [10]) = Some ta) ->
   sigt [] = Some [] ->
-  (forall ls q, parse_lines ls = Ok q -> concat (echo q) = concat ls) ->
+  (forall ls q t, parse_lines ls = Ok q -> sigt (concat ls) = Some t -> sigt (concat (echo q)) = Some t) ->
   (forall c, concat (file_lines c) = c) ->
   nl_line = [10] ->
   (forall n, ends_with_nl (header_line n) = true) ->
@@ -175,6 +179,27 @@ Theorem C14_tokens_partial : forall (T : Type) (sigt : bytes -> option (list T))
                      end).
 Proof. exact (build_code_tokens P parse_lines echo strip walk file_lines check_name find
                                 preamble_package preamble_require header_line end_line nl_line). Qed.
+
+(* ... and, relative to one more hypothesis - the stripping step acts on significant tokens as a
+   function [sstrip] does (for the concrete stack: as Spec/RequireSpec.spec_strip, the removal of the
+   top-level game loop function definitions) - every embedded package's tokens are its file's tokens,
+   minus only what [sstrip] removes unless {use_game_loop=true} was in force when it was loaded *)
+Theorem C14_block_tokens_partial : forall (T : Type) (sigt : bytes -> option (list T)) (sstrip : list T -> list T),
+  (forall ls q t, parse_lines ls = Ok q -> sigt (concat ls) = Some t -> sigt (concat (echo q)) = Some t) ->
+  (forall c, concat (file_lines c) = c) ->
+  (forall q q', strip q = Ok q' -> sigt (concat (echo q')) = option_map sstrip (sigt (concat (echo q)))) ->
+  forall fuel main_path main_content r pk,
+  build_lua fuel main_path main_content = Ok (r, pk) ->
+  Forall (fun e => exists rpath (gl : bool) qpath content, find rpath (fst e) = Some (qpath, content) /\
+            (lexes T sigt content ->
+             lexes T sigt (concat (echo (snd e))) /\
+             toks T sigt (concat (echo (snd e))) =
+               if gl then toks T sigt content else sstrip (toks T sigt content))) pk.
+Proof.
+  exact (fun T sigt sstrip He Hf Hs =>
+    build_block_tokens P parse_lines echo strip walk file_lines check_name find
+      preamble_package preamble_require header_line end_line nl_line T sigt He Hf sstrip Hs).
+Qed.
 End Abstract.
 
 (* the concrete instance: lexer and parser models, walker and stripping as in build.py, the
@@ -195,7 +220,7 @@ Theorem C14_tokens_partial_now : forall (T : Type) (sigt : bytes -> option (list
                      sigt (a ++ b) = Some (ta ++ tb)) ->
   (forall a ta, sigt a = Some ta -> sigt (a ++ [10]) = Some ta) ->
   sigt [] = Some [] ->
-  (forall ls q, from_lines ls = Ok q -> concat (echo_lines q) = concat ls) ->
+  (forall ls q t, from_lines ls = Ok q -> sigt (concat ls) = Some t -> sigt (concat (echo_lines q)) = Some t) ->
   forall cwd fs lua_path fuel main_path main_content out,
   build_code_now cwd fs lua_path fuel main_path main_content = Ok out ->
   exists r pk, build_lua_now cwd fs lua_path fuel main_path main_content = Ok (r, pk) /\
@@ -214,6 +239,75 @@ Theorem C14_tokens_partial_now : forall (T : Type) (sigt : bytes -> option (list
                      end).
 Proof. exact build_code_tokens_now. Qed.
 
+(* the reference tokenizer of Spec/LuaLex.v HAS the chunking property (Proofs/SpecLexChunk.v):
+   [sig_views src] = its significant tokens without positions.  A text that ends in a line feed and
+   lexes, followed by a text that lexes, lexes to the concatenation; a final line feed adds nothing *)
+Theorem C14_reference_chunking : forall a b ta tb,
+  (a = [] \/ last a 0 = 10) -> sig_views a = Some ta -> sig_views b = Some tb ->
+  sig_views (a ++ b) = Some (ta ++ tb).
+Proof. exact sig_views_app. Qed.
+
+Theorem C14_reference_final_lf : forall a ta, sig_views a = Some ta -> sig_views (a ++ [10]) = Some ta.
+Proof. exact sig_views_final_lf. Qed.
+
+(* hence the token-level statement for the concrete stack against the reference tokenizer, with the
+   constants' side conditions computed: the only remaining hypothesis is the token-faithful echo of
+   the lexer model (C06) - and, per package, that its header line and echoed code are in the dialect *)
+Theorem C14_tokens_spec_partial :
+  (forall ls q t, from_lines ls = Ok q -> sig_views (concat ls) = Some t -> sig_views (concat (echo_lines q)) = Some t) ->
+  forall cwd fs lua_path fuel main_path main_content out,
+  build_code_now cwd fs lua_path fuel main_path main_content = Ok out ->
+  exists r pk, build_lua_now cwd fs lua_path fuel main_path main_content = Ok (r, pk) /\
+    let toks := toks (Z * list Z * Z * Z * Z) sig_views in
+    let lexes := lexes (Z * list Z * Z * Z * Z) sig_views in
+    (Forall (fun e => lexes (header_line_now (fst e)) /\ lexes (concat (echo_lines (snd e)))) pk ->
+     lexes main_content ->
+     sig_views out = Some match pk with
+                          | [] => toks main_content
+                          | _ => concat (map toks require_lua_preamble_package)
+                                 ++ concat (map (fun e => toks (header_line_now (fst e))
+                                                          ++ toks (concat (echo_lines (snd e))) ++ toks end_line_now) pk)
+                                 ++ concat (map toks require_lua_preamble_require) ++ toks main_content
+                          end).
+Proof. exact build_code_tokens_spec. Qed.
+
+(* C06's predicate is enough: if holds_C06 (source, echoed text) and the echoed text has no lone
+   carriage return, the echoed text is in the dialect whenever the source is, with the same
+   significant token views (Proofs/SpecLexChunk.v: step_ctx - a token is read the same way in front
+   of any text that starts with the same byte - and walk_chain) *)
+Theorem C14_echo_predicate_suffices : forall src out t,
+  holds_C06 src out = true -> crlf_only out = true -> sig_views src = Some t -> sig_views out = Some t.
+Proof. exact holds_C06_sig_views. Qed.
+
+(* so the token-level clause, with its remaining hypothesis in the form C06 proves of the lexer model *)
+Theorem C14_tokens_spec_partial_c06 :
+  (forall ls q, from_lines ls = Ok q -> holds_C06 (concat ls) (concat (echo_lines q)) = true) ->
+  (forall ls q t, from_lines ls = Ok q -> sig_views (concat ls) = Some t ->
+                  crlf_only (concat (echo_lines q)) = true) ->
+  forall cwd fs lua_path fuel main_path main_content out,
+  build_code_now cwd fs lua_path fuel main_path main_content = Ok out ->
+  exists r pk, build_lua_now cwd fs lua_path fuel main_path main_content = Ok (r, pk) /\
+    let toks := toks (Z * list Z * Z * Z * Z) sig_views in
+    let lexes := lexes (Z * list Z * Z * Z * Z) sig_views in
+    (Forall (fun e => lexes (header_line_now (fst e)) /\ lexes (concat (echo_lines (snd e)))) pk ->
+     lexes main_content ->
+     sig_views out = Some match pk with
+                          | [] => toks main_content
+                          | _ => concat (map toks require_lua_preamble_package)
+                                 ++ concat (map (fun e => toks (header_line_now (fst e))
+                                                          ++ toks (concat (echo_lines (snd e))) ++ toks end_line_now) pk)
+                                 ++ concat (map toks require_lua_preamble_require) ++ toks main_content
+                          end).
+Proof. exact build_code_tokens_spec_c06. Qed.
+
+(* the stripping step of the concrete model, before the text is lexed again: whatever statements of
+   the tree are taken for game loop functions and wherever their token ranges lie, the significant
+   tokens that remain are a subsequence of the file's significant tokens - stripping removes, it never
+   adds, reorders or alters a token *)
+Theorem C14_strip_only_removes : forall stats ts ts',
+  strip_stats stats ts = Ok ts' -> subseq (sig_toks_of ts') (sig_toks_of ts).
+Proof. exact strip_stats_removes. Qed.
+
 Print Assumptions C14_structure.
 Print Assumptions C14_structure_bytes.
 Print Assumptions C14_unstripped_block.
@@ -224,9 +318,16 @@ Print Assumptions C14_errors_bad_name.
 Print Assumptions C14_errors_missing_file.
 Print Assumptions C14_terminates.
 Print Assumptions C14_tokens_partial.
+Print Assumptions C14_block_tokens_partial.
 Print Assumptions C14_terminates_now.
 Print Assumptions C14_dfs_exact.
 Print Assumptions C14_tokens_partial_now.
+Print Assumptions C14_strip_only_removes.
+Print Assumptions C14_reference_chunking.
+Print Assumptions C14_reference_final_lf.
+Print Assumptions C14_tokens_spec_partial.
+Print Assumptions C14_echo_predicate_suffices.
+Print Assumptions C14_tokens_spec_partial_c06.
 
 (* non-vacuity: a main program and two packages that require each other (a cycle), one game loop
    function each, one package without a final newline; the build succeeds, embeds each package once
